@@ -18,7 +18,7 @@ const char *MC_ASSUME[] = {"reference compaction in this file; cells built with 
 const char *MC_CTR_NAMES[] = {"sets", "cells_in_sets", "sets_with_compaction", "largest_set", NULL};
 const char *MC_MAX_NAMES[] = {"largest_set_cells", NULL};
 #define CANARY 0xC0FFEE0DDEADBEEFull
-enum { OP_SUB, OP_SUBS, OP_TWO, OP_THREE, OP_TREE, OP_DISK, OP_SIZE };
+enum { OP_SUB, OP_SUBS, OP_TWO, OP_THREE, OP_TREE, OP_DISK, OP_SIZE, OP_MIXED };
 
 static int nkids(uint64_t p) { return spec_is_pentagon(p) ? 6 : 7; }
 // reference compaction; out sorted; returns count
@@ -335,8 +335,59 @@ static void op_size(const McArg *a) {
         }
     }
 }
-const McOp MC_OPS[] = {{"sub", "hii", op_sub}, {"subs", "hi", op_subs}, {"two", "hii", op_two}, {"three", "hii", op_three}, {"tree", "hiii", op_tree}, {"disk", "hiii", op_disk}, {"size", "hh", op_size}};
-const int MC_NOPS = 7;
+// mixed(root, t): compact sets mixing resolutions (cells of root's sub-tree at res r, r+1, r+2, r+3, none an ancestor of another), in
+// every order (24 permutations of 4 elements + zero slots), uncompacted to target t: if t is coarser than ANY element the answer is
+// E_RES_MISMATCH from both functions, wherever that element stands; otherwise the size is the closed-form sum and the cells are exact
+static void op_mixed(const McArg *a) {
+    uint64_t root = a[0].u;
+    int r = spec_res(root), t = (int)a[1].i;
+    if (r + 3 > 15) return;
+    // children 2,3,4 of root; under child 2 go two levels down, under child 3 one level, child 4 itself, plus child 5's child
+    uint64_t c2 = spec_set_digit(root + ((uint64_t)1 << 52), r + 1, 2), c3 = spec_set_digit(root + ((uint64_t)1 << 52), r + 1, 3), c4 = spec_set_digit(root + ((uint64_t)1 << 52), r + 1, 4);
+    uint64_t e[4];
+    e[0] = c4;                                                                            // res r+1
+    e[1] = spec_set_digit(c3 + ((uint64_t)1 << 52), r + 2, 5);                              // res r+2
+    e[2] = spec_set_digit(spec_set_digit(c2 + ((uint64_t)2 << 52), r + 2, 6), r + 3, 2);    // res r+3
+    e[3] = spec_set_digit(c2 + ((uint64_t)1 << 52), r + 2, 3);                              // res r+2
+    for (int i = 0; i < 4; i++)
+        if (!spec_valid(e[i])) return;
+    mc_nontrivial();
+    int finest = r + 3;
+    int64_t want = 0;
+    for (int i = 0; i < 4; i++) want += t >= spec_res(e[i]) ? spec_children_count(e[i], t - spec_res(e[i])) : 0;
+    static const int P[24][4] = {{0,1,2,3},{0,1,3,2},{0,2,1,3},{0,2,3,1},{0,3,1,2},{0,3,2,1},{1,0,2,3},{1,0,3,2},{1,2,0,3},{1,2,3,0},{1,3,0,2},{1,3,2,0},
+                                 {2,0,1,3},{2,0,3,1},{2,1,0,3},{2,1,3,0},{2,3,0,1},{2,3,1,0},{3,0,1,2},{3,0,2,1},{3,1,0,2},{3,1,2,0},{3,2,0,1},{3,2,1,0}};
+    for (int p = 0; p < 24; p++)
+        for (int z = 0; z < 2; z++) {
+            uint64_t set[6];
+            int n = 0;
+            for (int i = 0; i < 4; i++) {
+                if (z && i == 2) set[n++] = 0;
+                set[n++] = e[P[p][i]];
+            }
+            int64_t got = -7;
+            mc_trans(2);
+            H3Error es = uncompactCellsSize(set, n, t, &got);
+            int64_t cap = t < finest ? 64 : want;
+            uint64_t *out = calloc(cap + 1, 8);
+            out[cap] = CANARY;
+            H3Error eu = uncompactCells(set, n, out, cap, t);
+            int canary = out[cap] == CANARY;
+            int64_t nz = 0;
+            for (int64_t i = 0; i < cap; i++) nz += out[i] != 0;
+            free(out);
+            MC_CHECK(canary, "uncompactCells wrote beyond its capacity (mixed-resolution set, permutation %d)", p);
+            if (t < finest) {
+                MC_CHECK(es == E_RES_MISMATCH, "uncompactCellsSize of a set containing a res-%d cell to res %d returned %d (size %" PRId64 "), permutation %d of {%" PRIx64 ",%" PRIx64 ",%" PRIx64 ",%" PRIx64 "}", finest, t, es, got, p, e[0], e[1], e[2], e[3]);
+                MC_CHECK(eu == E_RES_MISMATCH, "uncompactCells of a set containing a res-%d cell to res %d returned %d, permutation %d of {%" PRIx64 ",%" PRIx64 ",%" PRIx64 ",%" PRIx64 "}", finest, t, eu, p, e[0], e[1], e[2], e[3]);
+            } else {
+                MC_CHECK(es == 0 && got == want, "uncompactCellsSize(mixed set, res %d) = %d, %" PRId64 "; expected %" PRId64, t, es, got, want);
+                MC_CHECK(eu == 0 && nz == want, "uncompactCells(mixed set, res %d) returned %d with %" PRId64 " cells; expected %" PRId64, t, eu, nz, want);
+            }
+        }
+}
+const McOp MC_OPS[] = {{"sub", "hii", op_sub}, {"subs", "hi", op_subs}, {"two", "hii", op_two}, {"three", "hii", op_three}, {"tree", "hiii", op_tree}, {"disk", "hiii", op_disk}, {"size", "hh", op_size}, {"mixed", "hi", op_mixed}};
+const int MC_NOPS = 8;
 
 static U64Vec g_par;
 static void ph_subs(void *u) {
@@ -399,6 +450,18 @@ static void ph_size(void *u) {
                 MC_RUN(OP_SIZE, H(spec_mk(r, bc, d)), H(spec_mk(r, bc, e)));
             }
         }
+}
+static void ph_mixed(void *u) {
+    uint64_t idx = 0;
+    for (int r = 0; r <= 12; r++)
+        for (int bc = 0; bc < 122; bc += (r < 2 ? 1 : 7))
+            for (int t = r; t <= r + 5 && t <= 15; t++, idx++) {
+                if (!mc_mine(idx)) continue;
+                if (mc_expired()) return;
+                int d[15] = {0};
+                if (r > 1) d[0] = 2 + bc % 5;
+                MC_RUN(OP_MIXED, H(spec_mk(r, bc, d)), I(t));
+            }
 }
 static int g_kmax, g_diskdepth;
 static void ph_disk(void *u) {
@@ -467,5 +530,6 @@ int main(int argc, char **argv) {
     g_diskdepth = mc_thorough ? 4 : 2;
     mc_phase("disks and their children", ph_disk, NULL);
     mc_phase("uncompact sizes at every depth", ph_size, NULL);
+    mc_phase("mixed-resolution compact sets x permutations x targets", ph_mixed, NULL);
     return mc_finish();
 }
